@@ -33,7 +33,7 @@ REQUIRED = ["primitives.%s.__add__" % p for p in _P] + ["primitives.%s.__iadd__"
 
 
 def plan(tier):
-    return 5000 if tier == "quick" else 120000
+    return 10000 if tier == "quick" else 120000
 
 
 def budget(tier):
